@@ -63,7 +63,15 @@ def decide(prop, tier='quick', rlimit=None):
             if f['fn'] not in mine_names:
                 continue
             key = f['clause'] or f"safety@{f['src']}"
-            cid = f['clause'] if (f['clause'] and 'postcondition' in f['msg']) else f"{f['fn']}/safety@{f['src']}:{f['msg']}"
+            if f['clause'] and 'postcondition' in f['msg']:
+                cid = f['clause']
+            elif f['clause'] and ('/hint_' in f['clause'] or '/prologue' in f['clause'] or '/loop' in f['clause']):
+                # a proof step (hint assertion / loop invariant) that discharged on the reference tree no longer does
+                cid = f"{f['fn']}/contract[{f['clause'].split('/')[-1]}: {f['msg']}]"
+            elif f['clause'] and 'precondition' in f['msg']:
+                cid = f"{f['fn']}/safety[callee precondition {f['clause']}]@{f['src']}"
+            else:
+                cid = f"{f['fn']}/safety@{f['src']}:{f['msg']}"
             f = dict(f, cid=cid, unit=r.name)
             kf = known_for.get(f['clause']) if f['clause'] else None
             if kf is None:
